@@ -4,7 +4,7 @@
 From Coq Require Import List NArith ZArith Bool Lia Arith.
 From Okv Require Import Model.Lit Model.LitSpec Model.Syntax Model.Comb Model.ParseExpr Model.ParseMeta
   Model.ParsePosting Model.DocGrammar Model.RoundTripSpec
-  Proofs.LitProofs Proofs.LitShow Proofs.CombSpec Proofs.ParseTotal Proofs.DocAccept
+  Proofs.LitProofs Proofs.LitShow Proofs.CombSpec Proofs.ParseExprErase Proofs.ParseTotal Proofs.DocAccept
   Proofs.RoundTripNum Proofs.RoundTripExpr.
 Import ListNotations.
 Open Scope N_scope.
@@ -223,56 +223,24 @@ Proof.
   unfold mul_op. apply okv_alt; (eapply okv_bind; [apply okv_any |]); intros _ _; apply okv_ret; reflexivity.
 Qed.
 
-Lemma okv_foldl1_gen : forall (operand : parser s_expr) (sp : parser s_binop)
-    (P Q : s_expr -> Prop) (isop : s_binop -> bool),
-  ok_val operand Q -> ok_val sp (fun o => isop o = true) ->
-  (forall acc o b, P acc -> isop o = true -> Q b -> P (SBinary o acc b)) ->
-  forall f acc, P acc ->
-    ok_val (foldl1_loop f operand sp (fun l o r => SBinary o l r) acc) P.
-Proof.
-  intros operand sp P Q isop Hop Hsp Hstep. induction f; intros acc Hacc i e r H; simpl in H.
-  - destruct (sp i) as [b m | [] l m | |]; try discriminate.
-    + destruct (consumed i m); [| discriminate].
-      destruct (operand m) as [a m' | [] l m' | |]; try discriminate. inversion H; subst; assumption.
-    + inversion H; subst; assumption.
-  - destruct (sp i) as [b m | [] l m | |] eqn:ES; try discriminate.
-    + destruct (consumed i m); [| discriminate].
-      destruct (operand m) as [a m' | [] l m' | |] eqn:E; try discriminate.
-      * eapply IHf; [| eassumption]. apply Hstep; [assumption | eapply Hsp; eauto | eapply Hop; eauto].
-      * inversion H; subst; assumption.
-    + inversion H; subst; assumption.
-Qed.
-
-Lemma okv_infixl_gen : forall fuel op operand (P Q : s_expr -> Prop) (isop : s_binop -> bool),
-  ok_val operand Q -> ok_val op (fun o => isop o = true) ->
-  (forall e, Q e -> P e) ->
-  (forall acc o b, P acc -> isop o = true -> Q b -> P (SBinary o acc b)) ->
-  ok_val (infixl fuel op operand) P.
-Proof.
-  intros fuel op operand P Q isop Hop Hsp Hin Hstep i e r H. unfold infixl, separated_foldl1 in H.
-  destruct (operand i) as [a m | | |] eqn:E; try discriminate.
-  eapply okv_foldl1_gen; [exact Hop | apply okv_delimited; exact Hsp | exact Hstep | | eassumption].
-  apply Hin. eapply Hop; eauto.
-Qed.
-
 Lemma okv_mul_chain : forall fuel operand,
   ok_val operand (fun e => wf_e LUn e = true) ->
-  ok_val (infixl fuel mul_op operand) (fun e => wf_e LMul e = true).
+  ok_val (infixl_e fuel mul_op operand) (fun e => wf_e LMul e = true).
 Proof.
   intros fuel operand Hop.
-  eapply okv_infixl_gen with (Q := fun e => wf_e LUn e = true) (isop := is_mul);
+  eapply okv_infixl_e_gen with (Q := fun e => wf_e LUn e = true) (isop := is_mul);
     [exact Hop | exact okv_mul_op | exact wf_un_mul |].
-  intros acc o b Ha Ho Hb. destruct o; try discriminate; simpl; rewrite Ha, Hb; reflexivity.
+  intros o acc b Ha Ho Hb _. destruct o; try discriminate; simpl; rewrite Ha, Hb; reflexivity.
 Qed.
 
 Lemma okv_add_chain : forall fuel operand,
   ok_val operand (fun e => wf_e LMul e = true) ->
-  ok_val (infixl fuel add_op operand) (fun e => wf_e LAdd e = true).
+  ok_val (infixl_e fuel add_op operand) (fun e => wf_e LAdd e = true).
 Proof.
   intros fuel operand Hop.
-  eapply okv_infixl_gen with (Q := fun e => wf_e LMul e = true) (isop := is_add);
+  eapply okv_infixl_e_gen with (Q := fun e => wf_e LMul e = true) (isop := is_add);
     [exact Hop | exact okv_add_op | exact wf_mul_add |].
-  intros acc o b Ha Ho Hb. destruct o; try discriminate; simpl; rewrite Ha, Hb; reflexivity.
+  intros o acc b Ha Ho Hb _. destruct o; try discriminate; simpl; rewrite Ha, Hb; reflexivity.
 Qed.
 
 Lemma ved_amount : forall fuel d c t, (c =? 40) = false ->
@@ -283,8 +251,9 @@ Lemma ved_paren : forall fuel d c t v r, (c =? 40) = true ->
   value_expr_d fuel d (c :: t) = POk v r -> exists e, v = SParen e.
 Proof.
   intros fuel d c t v r Hc H. destruct d; simpl in H; rewrite Hc in H; [discriminate |].
-  unfold pmap, bind in H.
+  unfold paren_e, try_map in H.
   match type of H with match ?t with _ => _ end = _ => destruct t as [e m | | |] end; try discriminate.
+  destruct (fits_under (expr_height e)); [| discriminate].
   inversion H; subst. eauto.
 Qed.
 
@@ -292,13 +261,14 @@ Qed.
    does not start with a minus sign, so it is not negative *)
 Lemma okv_unary_ved : forall fuel d,
   ok_val (value_expr_d fuel d) (fun v => wf_v v = true) ->
-  ok_val (unary_expr (value_expr_d fuel d)) (fun e => wf_e LUn e = true).
+  ok_val (unary_e (value_expr_d fuel d)) (fun e => wf_e LUn e = true).
 Proof.
-  intros fuel d Hve i e r H. unfold unary_expr in H. destruct i as [| c t]; [discriminate |].
+  intros fuel d Hve i e r H. unfold unary_e in H. destruct i as [| c t]; [discriminate |].
   destruct (c =? 45) eqn:Ec.
-  - assert (G : ok_val (negate_expr (value_expr_d fuel d)) (fun e => wf_e LUn e = true)).
-    { unfold negate_expr. apply okv_pmap. apply okv_preceded.
-      intros j v r' Hv. simpl. eapply Hve; eauto. }
+  - assert (G : ok_val (negate_e (value_expr_d fuel d)) (fun e => wf_e LUn e = true)).
+    { unfold negate_e. apply okv_try_map_some. apply okv_preceded.
+      intros j v r' Hv b Hb. destruct (fits_under (vexpr_height v)); [| discriminate].
+      inversion Hb; subst. simpl. eapply Hve; eauto. }
     eapply G; eauto.
   - unfold pmap, bind in H.
     destruct (value_expr_d fuel d (c :: t)) as [v m | | |] eqn:E; try discriminate.
@@ -320,21 +290,20 @@ Proof.
   induction d; intros i v r H; simpl in H; destruct i as [| c t]; try discriminate.
   - destruct (N.eqb c 40); [discriminate |]. eapply GA; eauto.
   - destruct (N.eqb c 40); [| eapply GA; eauto].
-    match type of H with pmap SParen ?p _ = _ =>
-      assert (G : ok_val (pmap SParen p) (fun v => wf_v v = true)) end.
-    { apply okv_pmap. unfold paren. apply okv_delimited, okv_delimited.
-      assert (G : ok_val (infixl fuel add_op (infixl fuel mul_op (unary_expr (value_expr_d fuel d))))
-                         (fun e => wf_e LAdd e = true)).
-      { apply okv_add_chain, okv_mul_chain, okv_unary_ved. exact IHd. }
-      intros j e r' He. apply G in He. simpl. exact He. }
+    match type of H with paren_e ?p _ = _ =>
+      assert (G : ok_val (paren_e p) (fun v => wf_v v = true)) end.
+    { apply okv_paren_e with (P := fun e => wf_e LAdd e = true).
+      - apply okv_add_chain, okv_mul_chain, okv_unary_ved. exact IHd.
+      - intros e He _. simpl. exact He. }
     eapply G; eauto.
 Qed.
 
 Theorem value_expr_wf : forall fuel i v r, value_expr fuel i = POk v r -> wf_vexpr v = true.
 Proof.
-  intros fuel i v r H. unfold wf_vexpr. apply andb_true_iff. split.
-  - eapply value_expr_d_wf. exact H.
+  intros fuel i v r H. unfold wf_vexpr. rewrite !andb_true_iff. split; [split |].
+  - rewrite value_expr_erase in H. eapply value_expr_d_wf. exact H.
   - apply Nat.leb_le. eapply value_expr_depth_bounded. exact H.
+  - apply Nat.leb_le. eapply value_expr_height_bounded. exact H.
 Qed.
 
 Lemma okv_value_expr : forall fuel, ok_val (value_expr fuel) (fun v => wf_vexpr v = true).
